@@ -20,7 +20,7 @@ FIRING = [
      "    def execute(self, silent=False) -> None:\n        if self.is_canceled or self.is_executed:\n            return",
      "    def execute(self, silent=False) -> None:\n        if self.is_executed:\n            return", ["C05"]),
     ("active-filter-weakened", "jesse/store/state_orders.py", "if not order.is_canceled and not order.is_executed", "if not order.is_canceled", ["C05"]),
-    ("margin-ge", "jesse/models/FuturesExchange.py", "if effective_order_size > self.available_margin:", "if effective_order_size >= self.available_margin:", ["C03"]),
+    ("margin-ge", "jesse/models/FuturesExchange.py", "if effective_order_size > self.available_margin:", "if effective_order_size >= self.available_margin:", ["C03", "C17"]),
     ("fee-sign", "jesse/models/FuturesExchange.py", "fee_amount = abs(amount) * self.fee_rate", "fee_amount = amount * self.fee_rate", ["C03"]),
     ("cancel-wrong-condition", "jesse/models/FuturesExchange.py",
      "        self.available_assets[base_asset] -= order.qty\n        if not order.reduce_only:",
@@ -440,4 +440,99 @@ SILENT += [
 # ---- the dict handed to the simulator ordered by sorted keys instead of route order: still independent of the caller's order
 SILENT += [
     ("research-candles-sorted-keys", "jesse/research/backtest.py", [("    trading_candles_dict = {k: copied_candles[k] for k in ordered_keys}\n", "    trading_candles_dict = {k: copied_candles[k] for k in sorted(copied_candles)}\n")], None, ["C11", "C20"]),
+]
+
+
+# ---- fourth batch: behaviour-preserving rewrites outside the simulators (container, sizing helpers, spot ledger, metrics, indicators)
+_DNA = "jesse/libs/dynamic_numpy_array/__init__.py"
+SILENT += [
+    ("refactor-dna-getitem-len-local", _DNA, [("""            start, stop, _ = slice(i.start, i.stop).indices(self.index + 1)
+            return self.array[start:stop]""", """            n = self.index + 1
+            start, stop, _ = slice(i.start, i.stop).indices(n)
+            return self.array[start:stop]""")], None, ["C18", "C01", "C07"]),
+    ("refactor-dna-negative-index-form", _DNA, [("""            if i < 0:
+                i = (self.index + 1) - abs(i)
+
+            # validation
+            if self.index == -1""", """            if i < 0:
+                i = self.index + 1 + i
+
+            # validation
+            if self.index == -1""")], None, ["C18"]),
+    ("refactor-dna-past-item-test-form", _DNA, [("        if (self.index - past_index) < 0:", "        if past_index > self.index:")], None, ["C18"]),
+    ("refactor-dna-drop-into-helper", _DNA, [("""            new_bucket = np.zeros(self.shape)
+            self.array = np.concatenate((self.array, new_bucket), axis=0)
+
+        # drop N% of the beginning values to free memory
+        if (
+            self.drop_at is not None
+            and self.index != 0
+            and (self.index + 1) % self.drop_at == 0
+        ):
+            shift_num = int(self.drop_at / 2)
+            self.index -= shift_num
+            self.array = np_shift(self.array, -shift_num)
+
+        self.array[self.index] = item
+""", """            new_bucket = np.zeros(self.shape)
+            self.array = np.concatenate((self.array, new_bucket), axis=0)
+
+        self._drop_oldest_if_due()
+
+        self.array[self.index] = item
+
+    def _drop_oldest_if_due(self) -> None:
+        # drop N% of the beginning values to free memory
+        if (
+            self.drop_at is not None
+            and self.index != 0
+            and (self.index + 1) % self.drop_at == 0
+        ):
+            shift_num = int(self.drop_at / 2)
+            self.index -= shift_num
+            self.array = np_shift(self.array, -shift_num)
+""")], None, ["C18", "C01"]),
+    ("refactor-size-to-qty-local", "jesse/utils.py", [("    return jh.floor_with_precision(position_size / entry_price, precision)\n",
+                                                        "    qty = position_size / entry_price\n    return jh.floor_with_precision(qty, precision)\n")], None, ["C17"]),
+    ("refactor-floor-with-precision-names", "jesse/helpers.py", [("    temp = 10 ** precision\n    return math.floor(num * temp) / temp\n",
+                                                                 "    scale = 10 ** precision\n    floored = math.floor(num * scale)\n    return floored / scale\n")], None, ["C17"]),
+    ("refactor-risk-to-size-no-augassign", "jesse/utils.py", [("    risk_percentage /= 100\n    temp_size = ((risk_percentage * capital_size) / risk_per_qty) * entry_price\n",
+                                                               "    fraction = risk_percentage / 100\n    temp_size = ((fraction * capital_size) / risk_per_qty) * entry_price\n")], None, ["C17"]),
+    ("refactor-spot-execution-symbol-local", "jesse/models/SpotExchange.py", [("""        if order.side == sides.SELL:
+            if order.type == order_types.STOP:
+                self.stop_orders_sum[order.symbol] = subtract_floats(self.stop_orders_sum[order.symbol], abs(order.qty))
+            elif order.type == order_types.LIMIT:
+                self.limit_orders_sum[order.symbol] = subtract_floats(self.limit_orders_sum[order.symbol], abs(order.qty))
+
+        base_asset = jh.base_asset(order.symbol)
+
+        # buy order
+        if order.side == sides.BUY:
+            # asset's balance""", """        sym = order.symbol
+        size = abs(order.qty)
+        if order.side == sides.SELL:
+            if order.type == order_types.STOP:
+                self.stop_orders_sum[sym] = subtract_floats(self.stop_orders_sum[sym], size)
+            elif order.type == order_types.LIMIT:
+                self.limit_orders_sum[sym] = subtract_floats(self.limit_orders_sum[sym], size)
+
+        base_asset = jh.base_asset(sym)
+
+        # buy order
+        if order.side == sides.BUY:
+            # asset's balance""")], None, ["C04"]),
+    ("refactor-spot-cancellation-early-return", "jesse/models/SpotExchange.py", [("""        # buy order
+        if order.side == sides.BUY:
+            self.assets[self.settlement_currency] = sum_floats(self.assets[self.settlement_currency], abs(order.qty) * order.price)
+        # sell order: the reserved""", """        if order.side != sides.BUY:
+            return
+        self.assets[self.settlement_currency] = sum_floats(self.assets[self.settlement_currency], abs(order.qty) * order.price)
+        # sell order: the reserved""")], None, ["C04"]),
+]
+SILENT += [
+    ("refactor-position-close-test-commuted", "jesse/models/Position.py", [("            elif (sum_floats(self.qty, qty)) == 0:\n", "            elif sum_floats(qty, self.qty) == 0:\n")], None, ["C03", "C04", "C06", "C09"]),
+    ("refactor-wma-weights-form", "jesse/indicators/wma.py", [("    weights = np.arange(1, period + 1)\n    weight_sum = weights.sum()\n", "    weights = np.arange(period) + 1\n    weight_sum = np.sum(weights)\n")], None, ["C13", "C14", "C15"]),
+    ("refactor-mfi-typical-price-form", "jesse/indicators/mfi.py", [("    typical_prices = (high + low + close) / 3.0\n", "    hlc3 = high + low + close\n    typical_prices = hlc3 / 3.0\n")], None, ["C13", "C14", "C15"]),
+    ("refactor-mfi-strict-tests-swapped", "jesse/indicators/mfi.py", [("np.where(typical_prices[1:] > typical_prices[:-1], raw_mf[1:], 0)", "np.where(typical_prices[:-1] < typical_prices[1:], raw_mf[1:], 0)")], None, ["C13", "C14", "C15"]),
+    ("refactor-wma-locals", "jesse/indicators/wma.py", _rename_in_function("weighted_moving_average_custom", {"windowed": "views", "result": "out"}), None, ["C13", "C14", "C15"]),
 ]
